@@ -192,7 +192,7 @@ META = {
                    "element by element (identical terms) with the run chosen by a declarative oracle. Index-based "
                    "operations are enumerated over all in-range start/stop/step and compared with Python slicing.",
     "bounds": {"quick": "series of 2..6 points (truncate), 3..5 (Weaver, incl. after a reshape), 2..5 (slice by value), "
-                        "1..5 (indices, steps 1..3)", "thorough": "up to 8 / 6 / 7 / 7 points"},
+                        "1..5 (indices, steps 1..3); Weaver.truncate_by_value also from arbitrary states (gridded / reshaped / other-range) of 3..4 points", "thorough": "up to 8 / 6 / 7 / 7 points; arbitrary states of 3..5 points"},
     "outside": ["longer series", "float rounding in the ratio conversion"],
     "assumptions": ["x strictly increasing", "left < right (otherwise ValueError, see C20)",
                     "slice_by_value: given bounds are samples of x (otherwise ValueError, see C20), start <= stop"],
